@@ -9,13 +9,13 @@ Accepted, in this order:
   R  = <param>.copy()                                            the result under construction
   H  : List[str] = [<param>]                                     the history, started with the parent name
   while K in R:                                                  K a string constant
-      P : str = R[K]
-      R.pop(K)
+      P : str = R[K]; R.pop(K)                    (or P : str = R.pop(K))
       if P not in W: raise ValueError(...)        }  W a dict parameter; the two checks in either order
       if P in H: raise ValueError(...)            }
       H.append(P)
       D : Dict = W[P]
-      R = dict([(k, v) for k, v in D.items() if k not in E], **R)     (or with the roles of the two dicts exchanged)
+      R = dict([(k, v) for k, v in D.items() if k not in E], **R)     (or with the roles of the two dicts exchanged; the
+                                                                       list may be bound to a local first)
   return R
 Strings are interned by the model as integers; the key constant must be "extends" (the model's EXT)."""
 import ast
@@ -74,15 +74,23 @@ def translate(repo):
     K = s_w.test.left.value
     if K != "extends":
         raise Unsupported(f"the inheritance key is {K!r}")
-    wb = s_w.body
-    if len(wb) != 7:
-        raise Unsupported(f"{len(wb)} statements in the loop where 7 are expected")
-    s_p, s_pop, c1, c2, s_app, s_d, s_m = wb
+    wb = list(s_w.body)
+    if not wb:
+        raise Unsupported("empty loop")
+    # P = R[K]; R.pop(K)      or      P = R.pop(K)
+    s_p = wb.pop(0)
     P = target(s_p)
-    if ast.unparse(s_p.value) != f"{R}[{K!r}]":
+    if ast.unparse(s_p.value) == f"{R}.pop({K!r})":
+        pass
+    elif ast.unparse(s_p.value) == f"{R}[{K!r}]" and wb and ast.unparse(wb[0]) == f"{R}.pop({K!r})":
+        wb.pop(0)
+    else:
         raise Unsupported("parent name: " + ast.unparse(s_p.value))
-    if ast.unparse(s_pop) != f"{R}.pop({K!r})":
-        raise Unsupported("pop: " + ast.unparse(s_pop))
+    if len(wb) not in (5, 6):
+        raise Unsupported(f"{len(wb)} statements after the parent name where 5 or 6 are expected")
+    c1, c2, s_app, s_d = wb[:4]
+    s_m = wb[-1]
+    s_l = wb[4] if len(wb) == 6 else None        # optional: the filtered items bound to a local first
     checks = []
     for c in (c1, c2):
         if not (isinstance(c, ast.If) and not c.orelse and len(c.body) == 1 and isinstance(c.body[0], ast.Raise)
@@ -106,9 +114,17 @@ def translate(repo):
     if target(s_m) != R:
         raise Unsupported("merge target")
     m = s_m.value
-    if not (isinstance(m, ast.Call) and _name(m.func) == "dict" and len(m.args) == 1 and len(m.keywords) == 1 and m.keywords[0].arg is None
-            and isinstance(m.args[0], ast.ListComp) and len(m.args[0].generators) == 1):
+    if not (isinstance(m, ast.Call) and _name(m.func) == "dict" and len(m.args) == 1 and len(m.keywords) == 1 and m.keywords[0].arg is None):
         raise Unsupported("merge: " + ast.unparse(m)[:100])
+    comp = m.args[0]
+    if s_l is not None:
+        L = target(s_l)
+        if _name(comp) != L or L in (E, R, H, W, N, T, X, P, D):
+            raise Unsupported("merge of a local that is not the item list")
+        comp = s_l.value
+    if not (isinstance(comp, ast.ListComp) and len(comp.generators) == 1):
+        raise Unsupported("merge: " + ast.unparse(m)[:100])
+    m = ast.Call(func=m.func, args=[comp], keywords=m.keywords)
     g = m.args[0].generators[0]
     kv = [x.id for x in g.target.elts] if isinstance(g.target, ast.Tuple) and all(isinstance(x, ast.Name) for x in g.target.elts) else None
     if (kv is None or len(kv) != 2 or ast.unparse(m.args[0].elt) != f"({kv[0]}, {kv[1]})" or g.is_async
